@@ -304,10 +304,12 @@ func (b *Batcher) trySendBatchAndUnlock(batch *Batch) {
 	batch.seq = b.outSeq
 	b.outSeq++
 	b.batch = nil
+	// send under the lock: Stop closes fullBatches under the same lock, so a
+	// send can never hit a closed channel. The send can't block: the channel
+	// capacity equals the total number of batches.
+	b.fullBatches <- batch
 	b.mu.Unlock()
 	verifhook.Point("batcher.afterUnlock")
-
-	b.fullBatches <- batch
 }
 
 func (b *Batcher) getBatch() *Batch {
